@@ -122,7 +122,7 @@ class DefaultHelpFormatter(HelpFormatter):
             for key in parser.required_args:
                 try:
                     default = parser.get_default(key)
-                except NSKeyError:
+                except (NSKeyError, TypeError):  # TypeError: a default config file with an invalid value
                     default = None
                 if default is None and f"[--{key} " in usage:
                     usage = re.sub(f"\\[(--{key} [^\\]]+)]", r"\1", usage, count=1)
